@@ -10,6 +10,7 @@ func init() {
 	vrt.Register("VerifC04_List", VerifC04_List)
 	vrt.Register("VerifC04_Map", VerifC04_Map)
 	vrt.Register("VerifC04_Fork", VerifC04_Fork)
+	vrt.Register("VerifC04_SetMany", VerifC04_SetMany)
 }
 
 // verifNewValue makes the replacement value of thrift type vt with symbolic content.
@@ -259,10 +260,26 @@ func VerifC04_Map() {
 		path = NewPathStrKey(string(k))
 		keyRaw = vrt.PutString(nil, k)
 	} else {
-		vrt.Assume(kt == vrt.TI32)
-		k := int32(vrt.U32())
-		path = NewPathIntKey(int(k))
-		keyRaw = vrt.PutBE32(nil, int(k))
+		ktp := byte(vrt.Param("KT"))
+		vrt.Assume(kt == ktp)
+		switch ktp {
+		case vrt.TBYTE:
+			k := vrt.U8()
+			path = NewPathIntKey(int(k))
+			keyRaw = []byte{k}
+		case vrt.TI16:
+			k := int16(vrt.U16())
+			path = NewPathIntKey(int(k))
+			keyRaw = vrt.PutBE16(nil, int(k))
+		case vrt.TI64:
+			k := int64(vrt.U64())
+			path = NewPathIntKey(int(k))
+			keyRaw = vrt.PutBE64(nil, k)
+		default:
+			k := int32(vrt.U32())
+			path = NewPathIntKey(int(k))
+			keyRaw = vrt.PutBE32(nil, int(k))
+		}
 	}
 	idx := -1
 	for i := range kids {
@@ -361,5 +378,126 @@ func VerifC04_Fork() {
 		vrt.Assert(err == nil, "C04.fork.unset.noerror")
 		r := fork.Raw()
 		vrt.Assert(vrt.BytesEq(r, 0, len(r), orig, 0, len(orig)), "C04.fork.fork-unchanged")
+	}
+}
+
+// VerifC04_SetMany: SetMany with two addresses (each existing or absent) on every well-formed
+// struct / list / set of N bytes.
+func VerifC04_SetMany() {
+	n := vrt.Param("N")
+	t := byte(vrt.Param("T"))
+	vt := byte(vrt.Param("VT"))
+	b := vrt.Bytes(n)
+	kids, ok := vrt.TChildren(b, t, verifDepth)
+	vrt.Assume(ok)
+	orig := verifSnapshot(b)
+	node := NewNode(thrift.Type(t), b)
+	var p1, p2 Path
+	i1, i2 := -1, -1 // positions of the addressed elements in the original (-1 = absent)
+	var id1, id2 int
+	switch t {
+	case vrt.TSTRUCT:
+		verifDistinctIDs(kids)
+		w1, w2 := int16(vrt.U16()), int16(vrt.U16())
+		vrt.Assume(w1 != w2)
+		id1, id2 = int(w1), int(w2)
+		p1, p2 = NewPathFieldId(thrift.FieldID(w1)), NewPathFieldId(thrift.FieldID(w2))
+		for i := range kids {
+			if int16(kids[i].ID) == w1 {
+				i1 = i
+				vrt.Assume(kids[i].Typ == vt)
+			}
+			if int16(kids[i].ID) == w2 {
+				i2 = i
+				vrt.Assume(kids[i].Typ == vt)
+			}
+		}
+	default:
+		vrt.Assume(b[0] == vt)
+		w1 := vrt.Int()
+		vrt.Assume(w1 >= 0 && w1 <= len(kids))
+		w1 = vrt.Conc(w1)
+		// second address: one past the end (an insertion), unless the first one already is
+		w2 := len(kids)
+		if w1 == w2 {
+			vrt.Assume(len(kids) > 0)
+			w2 = 0
+		}
+		p1, p2 = NewPathIndex(w1), NewPathIndex(w2)
+		if w1 < len(kids) {
+			i1 = w1
+		}
+		if w2 < len(kids) {
+			i2 = w2
+		}
+	}
+	s1, r1 := verifNewValue(vt)
+	s2, r2 := verifNewValue(vt)
+	err := node.SetMany([]PathNode{{Path: p1, Node: s1}, {Path: p2, Node: s2}}, &Options{})
+	vrt.Assert(err == nil, "C04.setmany.noerror")
+	if err != nil {
+		return
+	}
+	r := node.Raw()
+	after, ok2 := vrt.TChildren(r, t, verifDepth)
+	vrt.Assert(ok2, "C04.setmany.wellformed")
+	if !ok2 {
+		return
+	}
+	want := len(kids)
+	if i1 < 0 {
+		want++
+	}
+	if i2 < 0 {
+		want++
+	}
+	vrt.Assert(len(after) == want, "C04.setmany.count")
+	if len(after) != want {
+		return
+	}
+	if i1 >= 0 && i2 >= 0 {
+		vrt.Reach("both-existing")
+	} else if i1 < 0 && i2 < 0 {
+		vrt.Reach("both-absent")
+	} else {
+		vrt.Reach("mixed")
+	}
+	// every original element other than the addressed ones is still there, in the same relative order
+	j := 0
+	for i := range kids {
+		if i == i1 || i == i2 {
+			continue
+		}
+		found := false
+		for j < len(after) && !found {
+			if verifSameChild(orig, kids[i], r, after[j]) {
+				found = true
+			}
+			j++
+		}
+		vrt.Assert(found, "C04.setmany.others-unchanged-in-order")
+	}
+	// the new values are present
+	has1, has2 := false, false
+	for k := range after {
+		if t == vrt.TSTRUCT {
+			if after[k].ID == id1&0xffff && vrt.BytesEq(r, after[k].Start, after[k].End, r1, 0, len(r1)) {
+				has1 = true
+			}
+			if after[k].ID == id2&0xffff && vrt.BytesEq(r, after[k].Start, after[k].End, r2, 0, len(r2)) {
+				has2 = true
+			}
+		} else {
+			if vrt.BytesEq(r, after[k].Start, after[k].End, r1, 0, len(r1)) {
+				has1 = true
+			}
+			if vrt.BytesEq(r, after[k].Start, after[k].End, r2, 0, len(r2)) {
+				has2 = true
+			}
+		}
+	}
+	vrt.Assert(has1 && has2, "C04.setmany.new-values-present")
+	if t != vrt.TSTRUCT && i1 >= 0 {
+		vrt.Assert(vrt.BytesEq(r, after[i1].Start, after[i1].End, r1, 0, len(r1)) || i2 < 0, "C04.setmany.replaced-in-place")
 	}
 }
